@@ -139,3 +139,29 @@ func (x *Exec) cevalClauseAt(c *Clause, st *State, fr *Frame, pos token.Pos) str
 	env.pos = pos
 	return x.cevalBool(c.Expr, env, c)
 }
+
+// ---- lock discipline (C20) ----
+// Every read/write of a guarded field (fields of Raft, follower, operationManager, lease and the
+// per-round counter cells that are not declared immutable/thread-local) must happen while the
+// symbolic executor knows Raft.mu to be held. Objects allocated by the executing call and not yet
+// published are exempt.
+
+var guardedTypes = map[string]bool{"Raft": true, "follower": true, "operationManager": true, "lease": true}
+
+func (x *Exec) lockAccess(st *State, sname, path, ref, what string) {
+	if x.vc.quiet > 0 || x.curPos == 0 || x.specDepth > 0 {
+		return
+	}
+	key := sname + "." + path
+	guarded := guardedTypes[sname] || key == "Cell.int" || key == "LogEntry.Offset"
+	if !guarded || x.isThreadLocalKey(key) {
+		return
+	}
+	if _, mine := x.owned[ref]; mine && !x.escaped[ref] {
+		return
+	}
+	x.lockAccesses++
+	if st.held != 1 {
+		x.lockViolations = append(x.lockViolations, fmt.Sprintf("%s of %s without holding Raft.mu at %s", what, key, x.e.pos(x.curPos)))
+	}
+}
